@@ -13,7 +13,7 @@ def claim(pid, level, engine, technique, text, note, ref):
     CLAIMED[pid] = dict(level=level, engine=engine, technique=technique, text=text, note=note, ref=ref)
 
 claim("C08", "exploration", "balance",
-      "runtime oracle over direct Plan calls: exhaustive small groups (incl. every sticky prior user data over a small universe), random large groups, rebalance chains",
+      "runtime oracle over direct Plan calls: exhaustive small groups (incl. every sticky prior user data over a small universe), random large groups, rebalance chains, one-step changes from every settled 3x3 group, generation conflicts with a stale claimant, a member x partition sweep per strategy, subscription lists naming a topic twice, literal groups that once broke a strategy (hook bal.cycle marks plans cut by the sticky repetition guard)",
       "Every plan produced by range / round-robin / sticky on the enumerated and generated groups is checked by a validity oracle written from the statement (each subscribed partition exactly one owner, owner subscribed, no unknown member/partition). Small bounds are enumerated completely, large groups and chains of rebalances are sampled; panics and non-returning Plan calls are caught per call.",
       "Held on the inputs of the run only. Inputs are restricted to what consumerGroup.balance can build (every topic has a subscriber).",
       "DESIGN.md §7 C08")
@@ -25,7 +25,7 @@ claim("C13", "exploration", "balance",
 
 claim("C01", "fault_enumeration", "prod",
       "runtime monitor of the real AsyncProducer/SyncProducer against a simulated cluster: enumerated fault words x retry budget x idempotence plus seeded random scenarios with hook-based schedule steering; conservation oracle over submit/outcome events at the API boundary, quiescence-based completion verdict, race detector",
-      "Every fault word of length <= 2 (quick) / <= 3 (thorough) over the 9-letter produce-fault alphabet is run for Retry.Max 0-2 and idempotent on/off on a small scenario; seeded random scenarios add brokers, partitions, flush settings, versions, acks, leader moves, metadata failures, SyncProducer callers and steering plans. For each run: every submitted message has exactly one terminal event, no event for anything else, Close/AsyncClose completes (stuck only when nothing moves any more), SyncProducer returns equal the producer's outcome for that pointer.",
+      "Every fault word of length <= 2 (quick) / <= 3 (thorough) over the 9-letter produce-fault alphabet is run for Retry.Max 0-2 and idempotent on/off on a small scenario; seeded random scenarios add brokers, partitions, flush settings, versions, acks, leader moves, leaderless windows, metadata failures, SyncProducer callers and steering plans; directed multi-step scenarios (retry cycle / leaderless window / second retry cycle; the same partition refused several times in a row with input at several paces and responses held until k more messages are buffered); cases that re-submit message objects handed back on Successes()/Errors(). For each run: every submitted message has exactly one terminal event, no event for anything else, Close/AsyncClose completes (stuck only when nothing moves any more), SyncProducer returns equal the producer's outcome for that pointer.",
       "Held on the executions of the run. Successes pending when Close() is called are drained by Close itself (documented) and are then checked through the ap.outcome hook instead of the channel.",
       "DESIGN.md §7 C01")
 claim("C02", "fault_enumeration", "prod",
@@ -35,39 +35,39 @@ claim("C02", "fault_enumeration", "prod",
       "DESIGN.md §7 C02")
 claim("C04", "exploration", "prod",
       "runtime monitor: every produce request is parsed by an independent reference reader (message v0/v1, record batch v2, all codecs, CRCs, varints, relative offsets); success events are checked against the simulated log content and a reference partitioner",
-      "Payload x version x codec x batching x acks x light fault scripts; each success must name the partition the partitioner chose and an offset holding exactly that message; nothing else may be in the log; wire format rules checked per request.",
+      "Payload (nil vs empty keys and values, headers, sub-millisecond timestamps in no order) x version x codec x batching x acks x light fault scripts; each success must name the partition the partitioner chose and an offset holding exactly that message; nothing else may be in the log; wire format rules checked per request.",
       "Held on the executions of the run. Offset under RequiredAcks=NoResponse is not judged (documented as undefined).",
       "DESIGN.md §7 C04")
 claim("C05", "fault_enumeration", "prod",
       "runtime monitor: simulated brokers enforce Kafka's producer id/epoch/sequence rules; oracles over the partition logs (no duplicate, success implies present) and over the sequence of batches received per (partition, producer id, epoch); hook facts attribute violations to mechanisms",
-      "Enumerated fault words x retry budget with idempotence on, plus random scenarios (half of them submitting sequentially so that no fresh input arrives inside a retry window). In the clean context (retriable error codes only, no failed message) any deviation is reported with its kind; after a connection fault or a failed message the pinned tree has three known mechanisms (KNOWN_FINDINGS.txt).",
+      "Enumerated fault words x retry budget with idempotence on, random scenarios (half of them submitting sequentially so that no fresh input arrives inside a retry window), the deep-retry directed family of C01, and cases that re-submit message objects handed back by the producer (judged by record ids and per-epoch sequence continuity). In the clean context (retriable error codes only, no failed message) any deviation is reported with its kind; after a connection fault or a failed message the pinned tree has three known mechanisms (KNOWN_FINDINGS.txt).",
       "Held on the executions of the run, in the clean context; after connection faults / failed messages the known findings apply.",
       "DESIGN.md §7 C05, §8")
 claim("C16", "exploration", "prod",
       "runtime monitor: sizes and counts of every produce request measured at the simulated cluster (wire size, per-partition key+value bytes, records per request), rejection outcomes, and a quiescence-judged flush clause after the input stops",
-      "Message sizes straddling each limit x Flush.{Messages,Bytes,Frequency,MaxMessages} x MaxMessageBytes x lowered MaxRequestSize x version x partitions per broker, answers delayed by steering so batches accumulate.",
+      "Message sizes straddling each limit x Flush.{Messages,Bytes,Frequency,MaxMessages} x MaxMessageBytes x lowered MaxRequestSize x version x partitions per broker, answers delayed by steering so batches accumulate; record headers in 40% of the 0.11+ scenarios; delayed-retry scenarios (only Flush.Frequency, answers slower than the frequency, a retriable refusal, input for several partitions meanwhile, then the input stops).",
       "Held on the executions of the run. MaxMessageBytes is kept below MaxRequestSize (the other order is a misconfiguration outside the statement).",
       "DESIGN.md §7 C16")
 
 claim("C20", "exploration", "mocks",
       "runtime monitor of the mock producers/consumer: recording ErrorReporter, reference model of the expectation script (sequential walk; porcupine linearizability check for concurrent senders), reference partitioners, consumer yield-order/offset/high-water-mark oracles, race detector",
-      "Enumerated core of minimal scripts plus seeded scripts of 0-200 expectations (success/error/checker pass|fail) x submitted count relative to the script x partitioners x topic configs x 1-4 senders x SendMessages batches; consumer mock with 1-4 partitions and several close orders. Reporter calls must be exactly the deviations of the case.",
+      "Enumerated core of minimal scripts plus seeded scripts of 0-200 expectations (success/error/checker pass|fail) x submitted count relative to the script x partitioners x topic configs x 1-4 senders x SendMessages batches; consumer mock with 1-4 partitions, several close orders and 2-8 goroutines yielding on one partition consumer; async mock with Return.Successes or Return.Errors off. Reporter calls must be exactly the deviations of the case.",
       "Held on the executions of the run. Not demanded: an outcome for a message without expectation; behaviour on a failing partitioner; messages of a SendMessages batch after its first failing expectation.",
       "DESIGN.md §7 C20")
 
 claim("C03", "exploration", "cons",
       "runtime monitor of the real PartitionConsumer against the simulated cluster whose fetch answers are written by an independent reference writer (record batches, legacy v0/v1, compressed wrappers, batches starting before the start offset, partial trailing data); exact-sequence oracle on delivered messages, bounded-progress verdict in logical steps, race detector",
-      "Enumerated core (partial record cut at byte positions of the answer x format; every literal start offset of a small log) plus seeded scenarios: log content x framing x Kafka version x start offset (oldest/newest/literal) x per-fetch fault word x reader pace x channel buffer x 1-3 partitions on 1-2 brokers. Delivered messages must equal the visible log suffix field by field; after the fault word is exhausted delivery must reach the end (stalled = 300 further error-free fetch answers without a delivery, or nothing moving).",
-      "Held on the executions of the run. Delivery after OFFSET_OUT_OF_RANGE is not demanded; compaction gaps are not modelled; Fetch.Max stays 0.",
+      "Enumerated core (partial record cut at byte positions of the answer x format; every literal start offset of a small log) plus seeded scenarios: log content x framing x Kafka version x start offset (oldest/newest/literal) x per-fetch fault word x reader pace x channel buffer x 1-3 partitions on 1-2 brokers; a quarter of the scenarios compact a third of each partition (non-contiguous record offsets inside batches and wrappers); fault letter no-leader (one partition refused and leaderless for some metadata answers while the others read on), shared-broker core cases (2-3 partitions x 400 records, every fault letter), Fetch.Max core cases (limit off the doubling ladder). Delivered messages must equal the visible log suffix field by field; after the fault word is exhausted delivery must reach the end (stalled = 300 further error-free fetch answers without a delivery, or nothing moving).",
+      "Held on the executions of the run. Delivery after OFFSET_OUT_OF_RANGE is not demanded; a compacted record is never the last of the initial log.",
       "DESIGN.md §7 C03")
 claim("C11", "exploration", "cons",
       "runtime monitor: transactional logs with a faithful aborted-transaction index and last stable offset served by the simulated cluster; reference view of committed / non-transactional records; fetch offsets observed to move past control and aborted records",
-      "Enumerated core (4 transaction patterns x every start offset x batch size x isolation level) plus seeded logs with 1-4 producer ids, overlapping / back-to-back / aborted-then-committed / open transactions, shuffled aborted index, C03's faults and paces.",
+      "Enumerated core (6 transaction patterns incl. 3-4 staggered aborted transactions in one answer x every start offset x batch size x isolation level) plus seeded logs with 1-4 producer ids (from 0, 9000 or 2^40), overlapping / back-to-back / aborted-then-committed / open transactions, shuffled aborted index, C03's faults and paces.",
       "Held on the executions of the run; versions >= 0.11.",
       "DESIGN.md §7 C11")
 claim("C18", "fault_enumeration", "prod",
       "runtime monitor: recording / mutating / panicking interceptor chains on the real producer (enumerated fault words, retries at depth 1-3, chaser markers) and on the real consumer (slow-reader path forced by reader pace, observed through the pc.expired hook); exactly-once oracle per message pointer / offset and on the wire / delivered payload",
-      "Producer: C01's enumerated core and random scenarios with chains of 1-4 interceptors; consumer: C03 scenarios with slow readers. Each interceptor must run exactly once per application message, in order, never for markers; mutations must appear exactly once; a panicking interceptor must not break the chain or the pipeline.",
+      "Producer: C01's enumerated core, directed and random scenarios with chains of 1-4 interceptors, tombstones and messages the producer must refuse; consumer: C03 scenarios with slow readers. Each interceptor must run exactly once per application message, in order, never for markers; mutations must appear exactly once; a panicking interceptor must not break the chain or the pipeline.",
       "Held on the executions of the run.",
       "DESIGN.md §7 C18")
 
@@ -85,37 +85,37 @@ claim("C17", "exploration", "part",
 
 claim("C06", "exploration", "om",
       "runtime monitor of the real OffsetManager against the simulated group coordinator: recorded call/return history of MarkOffset/ResetOffset/NextOffset per partition, commit observations taken at the om.flush/om.built hooks, final store reads; per-partition porcupine linearizability check against a sequential register model, conservation checks on the requests the coordinator received, race detector",
-      "300 (quick) / 5000 (thorough) seeded histories: 1-4 partitions, 1-4 marker goroutines, auto-commit ticker or one manual committer, per-commit coordinator behaviour word (accept, error classes, partial errors, omitted blocks, dropped connection, coordinator moved), retention, retry budgets, steering that parks the committer between building and handling a commit until marks land inside the window. After the behaviour word is exhausted the stored offset/metadata must equal the latest mark (lost-mark clause), also for manual commits.",
+      "300 (quick) / 5000 (thorough) seeded histories: 1-4 partitions, 1-4 marker goroutines, auto-commit ticker or one manual committer, per-commit coordinator behaviour word (accept, error classes, partial errors, omitted blocks, dropped connection, coordinator moved), retention, retry budgets, steering that parks the committer between building and handling a commit until marks land inside the window; 40% of the histories use one constant metadata string; Metadata.Retry.Max 0 or 3 and 0-5 OFFSETS_LOAD_IN_PROGRESS answers to the first offset fetches; 1-3 topics per manager. After the behaviour word is exhausted the stored offset/metadata must equal the latest mark (lost-mark clause), also for manual commits.",
       "Held on the histories of the run; one committer at a time as the statement assumes; porcupine timeouts are inconclusive.",
       "DESIGN.md §7 C06")
 
 claim("C07", "fault_enumeration", "group",
       "runtime monitor of real ConsumerGroup members (each with its own client) against a simulated group coordinator implementing Kafka's group state machine: trace automaton per Consume call over a recording handler (Setup / ConsumeClaim / Cleanup), coordinator-side event log for identities, start offsets, final commits and assignments, delivery coverage across sessions, quiescence-judged termination, race detector",
-      "Enumerated core: every single fault (and fault after one ok; pairs in thorough) x request kind (find-coordinator, join, sync, heartbeat, commit, leave) x two handler behaviours on a one-member scenario; plus seeded scenarios with 1-3 members, 1-2 topics, 3 strategies, 7 handler behaviours (incl. marking inside Cleanup), late joiners, Close mid-session, context cancellation, pre-stored commits. Injected UNKNOWN_MEMBER_ID answers are made true at the coordinator (the member is removed).",
-      "Held on the executions of the run. The final-commit clause is only judged when the member's commit path was not disturbed by injected faults; 'exactly one claim unless the session is ending' is judged as at-most-one plus counters.",
+      "Enumerated core: every single fault (and fault after one ok; pairs in thorough) x request kind (find-coordinator, join, sync, heartbeat, commit, leave, offset-fetch; join faults also on the 2nd-4th join) x two handler behaviours on a one-member scenario; plus seeded scenarios with 1-3 members, 1-2 topics, 3 strategies, 7 handler behaviours (incl. marking inside Cleanup), late joiners, Close mid-session, context cancellation, pre-stored commits (inside, below and beyond the log), Consumer.Offsets.Retention, claims that cannot be started (ListOffsets failing per partition), members without claims. Injected UNKNOWN_MEMBER_ID answers are made true at the coordinator (the member is removed).",
+      "Held on the executions of the run. The final-commit clause is only judged when the member's commit path was not disturbed by injected faults; 'exactly one claim unless the session is ending' is judged as at-most-one, plus: an assigned partition without ConsumeClaim in a session that goes on for 12+ successful heartbeats after its last claim started is a violation.",
       "DESIGN.md §7 C07")
 
 claim("C19", "fault_enumeration", "admin",
       "runtime monitor of the real ClusterAdmin against the simulated cluster's admin side: every admin request is logged at the broker that received it (was it controller / leader / coordinator then, what it answered), return values are judged by a reference model per operation",
-      "Enumerated (operation x Admin.Retry.Max in {0,1,2,5} x controller moves 0..Retry.Max+1 x 16 error codes at top and item level, omitted items, dropped connections), leader/coordinator-bound operations spread over 1-4 brokers, 9 Kafka versions incl. below-minimum, shared and concurrently used admins, plus seeded random cases; ~4 100 admin calls in quick, ~49 000 in thorough. State changes at the cluster are compared with the reported outcome.",
+      "Enumerated (operation x Admin.Retry.Max in {0,1,2,5} x controller moves 0..Retry.Max+1 x 16 error codes at top and item level, omitted items, dropped connections), leader/coordinator-bound operations spread over 1-4 brokers, 9 Kafka versions incl. below-minimum, shared and concurrently used admins, admins on a Metadata.Full=false client that looked up a missing topic, plus seeded random cases; ~4 100 admin calls in quick, ~49 000 in thorough. State changes at the cluster are compared with the reported outcome.",
       "Held on the calls of the run. ListPartitionReassignments is only exercised fault-free (not among the statement's controller-bound operations); DescribeLogDirs for unknown broker ids is not generated; client-side connection errors under concurrent callers are counted, not judged.",
       "DESIGN.md §7 C19")
 
 claim("C15", "exploration", "client",
       "runtime monitor of the real Client against the simulated cluster: every metadata response served is versioned, the cl.applied hook (inside the client's write lock) and the deregistration log line give the order in which the client changed state, every API read samples the applied-event count before and after the call and must equal the reference fold of some prefix inside that window; reachability enumerated over unreachable / refusing / mid-request-failing subsets; race detector",
-      "200 (quick) / 5000 (thorough) metadata histories of 5-60 steps (topics appear/vanish/err per class, partitions added/removed, leaders move or vanish, brokers added/removed/readdressed, full vs per-topic refresh) with 1-8 concurrent readers and an optional 1 ms background refresher, sequential histories for the after-refresh clause, plus 465 enumerated and 60 random reachability cases for NewClient and RefreshMetadata with Retry.Max 0/1.",
+      "200 (quick) / 5000 (thorough) metadata histories of 5-60 steps (topics appear/vanish/err per class, partitions added/removed, leaders move or vanish, brokers added/removed/readdressed/swapped, full vs per-topic refresh; 1 history in 12 is a flip history: leadership keeps leaving a broker that is readdressed in the same response, under 3-6 readers spinning on Leader) with 1-8 concurrent readers and an optional 1 ms background refresher, sequential histories for the after-refresh clause, plus 465 enumerated and 60 random reachability cases for NewClient and RefreshMetadata with Retry.Max 0/1.",
       "Held on the executions of the run. Where the statement is silent (WritablePartitions for a leader id that is not a known broker; empty partition lists) either answer is accepted and counted.",
       "DESIGN.md §7 C15")
 
 claim("C12", "fault_enumeration", "shutdown",
       "runtime monitor with crash-point enumeration: each scenario (producer, sync producer, partition consumer, consumer, consumer group, offset manager, client in a given state) is re-run once per k, and at the k-th observable event (hook event or request arriving at the simulated cluster) the documented closing sequence is started from a fresh goroutine; completion judged by quiescence and by a logical-step bound, channels drained and checked for closure, panics collected through sarama.PanicHandler and child deaths, second Close tried where the statement promises it harmless, race detector",
-      "23 scenarios (idle, mid-request, mid-retry, back-off, unreachable cluster, slow reader, reader that stops reading, redispatch, out-of-range, mid-join, mid-sync, rebalance back-off, coordinator unavailable, two members, slow / failing commits, background refresher, shared client) x every 4th (quick) or every (thorough) crash point up to the scenario's event count, plus close after the workload ended.",
+      "33 scenarios (idle, mid-request, mid-retry, back-off, unreachable cluster, a return channel switched off, slow reader, reader that stops reading, redispatch, fetches dying in flight, a failing re-dispatch with partitions sharing the broker, out-of-range, mid-join, mid-sync, rebalance back-off, coordinator unavailable / lost after the first join, offset fetch failing during session setup, two members, a member without claims, slow / failing commits, manual commits racing with Close, background refresher, shared client) x every 4th (quick) or every (thorough) crash point up to the scenario's event count, plus close after the workload ended.",
       "Held on the executions of the run. The application services output channels as documented (AsyncClose: keep draining; PartitionConsumer.Close: no reading required). Goroutine leaks are not judged. Close blocking under an unfired count/byte flush trigger is a C01 known finding and not re-generated here.",
       "DESIGN.md §7 C12")
 
 claim("C14", "exploration", "broker",
-      "runtime monitor of the real Broker against a raw frame server (unix socket): every call carries a token that the server echoes into its typed response, per-connection event log of frames received / sent and of requests received but not yet answered; oracles for crosstalk, delivery of mismatching answers, success after a connection fault, stuck calls (quiescence) and the in-flight bound; race detector",
-      "180 enumerated core cases (each single-fault server behaviour x MaxOpenRequests x callers, pile-up cases) plus 300 (quick) / 10 000 (thorough) seeded cases: 1-16 caller goroutines, nine request kinds (incl. flexible-header and acks=0), MaxOpenRequests in {1,2,3,5}, server behaviour words over answer / delay / hold-until-k-pending / swapped / wrong id / stale id / truncated header or body / short or oversize length / bad tag / close / silence, Close and re-Open racing with calls.",
+      "runtime monitor of the real Broker against a raw frame server (unix socket): every call carries a token that the server echoes into its typed response, per-connection event log of frames received / sent and of requests received but not yet answered; oracles for crosstalk, delivery of mismatching answers, success after a connection fault, stuck calls (quiescence), duplicate correlation ids on a connection and the in-flight bound; race detector",
+      "180 enumerated core cases (each single-fault server behaviour x MaxOpenRequests x callers, pile-up cases) plus 300 (quick) / 10 000 (thorough) seeded cases: 1-16 caller goroutines, nine request kinds (incl. flexible-header and acks=0), MaxOpenRequests in {1,2,3,5}, a client-side write that times out with nothing written (20% of the cases), server behaviour words over answer / delay / hold-until-k-pending / swapped / wrong id / stale id / truncated header or body / short or oversize length / bad tag / close / silence, Close and re-Open racing with calls.",
       "Held on the executions of the run apart from the known in-flight finding (max+1). An i/o timeout without injected silence is inconclusive; Close itself hanging is C12's clause.",
       "DESIGN.md §7 C14")
 
